@@ -436,10 +436,15 @@ pub fn gen_c03(seed: u64, thorough: bool, only: Option<u64>, out: &mut Out) {
         let len = cts[i].len().min(cts[j].len());
         let dc: Vec<u8> = (0..len).map(|k| cts[i][k] ^ cts[j][k]).collect();
         let dp: Vec<u8> = (0..len).map(|k| pts[i][k] ^ pts[j][k]).collect();
-        let first = len.min(166);
-        // beyond the first block: any 8-byte window where payloads differ and the differences agree
+        // first differing payload byte and the end of the STROBE block (166 bytes) that contains it
+        let fd = match (0..len).find(|&k| dp[k] != 0) {
+          Some(k) => k,
+          None => continue,
+        };
+        let block_end = ((fd / 166) + 1) * 166;
+        // beyond that block: any 8-byte window where payloads differ and the differences agree
         let mut later = false;
-        let mut k = 166;
+        let mut k = block_end;
         while k + 8 <= len {
           if dp[k..k + 8].iter().any(|&b| b != 0) && dc[k..k + 8] == dp[k..k + 8] {
             later = true;
@@ -447,11 +452,12 @@ pub fn gen_c03(seed: u64, thorough: bool, only: Option<u64>, out: &mut Out) {
           k += 1;
         }
         if later {
-          v = Err("ciphertext difference equals payload difference beyond the first cipher block".into());
+          v = Err("ciphertext difference equals payload difference beyond the first differing cipher block".into());
           break 'outer;
         }
-        if dc[..first] == dp[..first] && dp[..first].iter().any(|&b| b != 0) {
-          v = Err("keystream-first-block: ciphertext difference equals payload difference within the first 166 bytes".into());
+        let hi = len.min(block_end);
+        if dc[fd..hi] == dp[fd..hi] {
+          v = Err("keystream-first-block: ciphertext difference equals payload difference up to the end of the first differing 166-byte block".into());
         }
       }
     }
@@ -507,7 +513,7 @@ pub fn gen_c04(seed: u64, thorough: bool, _only: Option<u64>, out: &mut Out) {
   // thresholds differing in one bit, 0 and extremes, same strings
   let m0 = r.bytes(6);
   let e0 = r.bytes(2);
-  families.push([1u32, 2, 3, 4, 5, 8, 9, 256, 257, 65536, 1 << 24, (1 << 24) + 1].iter().map(|&t| (m0.clone(), e0.clone(), t)).collect());
+  families.push([1u32, 2, 3, 4, 5, 8, 9, 16, 17, 64, 65, 256, 257].iter().map(|&t| (m0.clone(), e0.clone(), t)).collect());
   // prefixes of one another, empty components, zero bytes
   let base = r.bytes(5);
   let mut fam = vec![];
